@@ -398,7 +398,13 @@ type ValKind struct {
 
 var (
 	VInt    = &ValKind{Name: "int", Zero: int(0), Comparable: true, Gen: func(r *fw.Rng) interface{} { return r.Range(-50, 50) }}
-	VString = &ValKind{Name: "string", Zero: "", Comparable: true, Gen: func(r *fw.Rng) interface{} { return fmt.Sprintf("v%d", r.Intn(40)) }}
+	VString = &ValKind{Name: "string", Zero: "", Comparable: true, Gen: func(r *fw.Rng) interface{} {
+		if r.Chance(1, 40) { // marshaled lengths on the varint boundaries of the binary format
+			n := []int{125, 126, 127, 128, 16381, 16382}[r.Intn(6)]
+			return strings.Repeat("x", n-2) + fmt.Sprintf("%02d", r.Intn(40))
+		}
+		return fmt.Sprintf("v%d", r.Intn(40))
+	}}
 	VStruct = &ValKind{Name: "struct", Zero: VS{}, Comparable: true, Gen: func(r *fw.Rng) interface{} { return VS{r.Intn(9), fmt.Sprintf("b%d", r.Intn(5))} }}
 	// VNil: set-like trees (ValuesLike nil, every value nil; needs UnmarshalerUsesRegisteredTypes)
 	VNil   = &ValKind{Name: "nil", Zero: nil, Comparable: true, Single: true, Gen: func(r *fw.Rng) interface{} { return nil }}
